@@ -8,7 +8,6 @@ import (
 	"go/constant"
 	"go/token"
 	"go/types"
-	"reflect"
 	"regexp"
 	"sort"
 	"strings"
@@ -155,7 +154,7 @@ func checkScanOrder(c *Ctx, rule string) {
 }
 
 // R02r: a matched object is marked as matched before the search moves on.
-const ruleTextMatchedMarked = "bookkeeping of matched objects: in the differ's index loop (Diff.indexDiffT) every `continue` that follows the discovery of a counterpart in the other table (a look-up whose second result was tested true) is preceded, in that branch, by the store that marks the counterpart as existing (exists[x] = true); the second loop adds every index of the desired table that is not marked, so an unmarked match is reported as a spurious AddIndex although nothing was edited; the matched pair is compared in full (indexChange) before the loop moves on, and a counterpart that was not found by its unique name is accepted only if it is not marked yet"
+const ruleTextMatchedMarked = "bookkeeping of matched objects: in the differ's index loop (Diff.indexDiffT) every path from the discovery of a counterpart in the other table (the edge on which the found-flag of a look-up with results (*schema.Index, …, bool) is true) to the next iteration passes the store that marks the counterpart as existing (exists[x] = true); the second loop adds every index of the desired table that is not marked, so an unmarked match is reported as a spurious AddIndex although nothing was edited; the matched pair is compared in full (indexChange) before the loop moves on, and a counterpart that was not found by its unique name is accepted only if it is not marked yet"
 
 func checkMatchedMarked(c *Ctx, rule string) {
 	fi := c.Func(rule, pSqlx, "Diff", "indexDiffT")
@@ -163,27 +162,19 @@ func checkMatchedMarked(c *Ctx, rule string) {
 		return
 	}
 	info := fi.Info()
-	// the marker map: map[*schema.Index]bool local
+	isIndexMap := func(t types.Type) bool {
+		if t == nil {
+			return false
+		}
+		mt, ok := t.Underlying().(*types.Map)
+		return ok && typeIs(derefType(mt.Key()), pSchema, "Index")
+	}
+	// the marker map: a local map[*schema.Index]bool
 	var marker types.Object
 	ast.Inspect(fi.Decl.Body, func(m ast.Node) bool {
-		if vs, ok := m.(*ast.ValueSpec); ok {
-			for _, nm := range vs.Names {
-				if tp := info.TypeOf(nm); tp == nil {
-					continue
-				} else if mt, ok := tp.Underlying().(*types.Map); ok && typeIs(derefType(mt.Key()), pSchema, "Index") {
-					marker = info.ObjectOf(nm)
-				}
-			}
-		}
-		if as, ok := m.(*ast.AssignStmt); ok && as.Tok == token.DEFINE {
-			for _, l := range as.Lhs {
-				if id, ok := l.(*ast.Ident); ok {
-					if tp := info.TypeOf(id); tp == nil {
-						continue
-					} else if mt, ok := tp.Underlying().(*types.Map); ok && typeIs(derefType(mt.Key()), pSchema, "Index") {
-						marker = info.ObjectOf(id)
-					}
-				}
+		if id, ok := m.(*ast.Ident); ok {
+			if v, ok := info.Defs[id].(*types.Var); ok && isIndexMap(v.Type()) && marker == nil {
+				marker = v
 			}
 		}
 		return true
@@ -192,32 +183,8 @@ func checkMatchedMarked(c *Ctx, rule string) {
 		c.Unresolved(rule, "indexDiffT: the map that marks matched indexes")
 		return
 	}
-	n := 0
-	pm := parentMap(fi.Decl)
-	found := map[types.Object]string{}
-	ast.Inspect(fi.Decl.Body, func(m ast.Node) bool {
-		as, ok := m.(*ast.AssignStmt)
-		if !ok || len(as.Lhs) != 2 || len(as.Rhs) != 1 {
-			return true
-		}
-		call, ok := ast.Unparen(as.Rhs[0]).(*ast.CallExpr)
-		if !ok {
-			return true
-		}
-		tup, ok := info.TypeOf(call).(*types.Tuple)
-		if !ok || tup.Len() != 2 || !typeIs(derefType(tup.At(0).Type()), pSchema, "Index") {
-			return true
-		}
-		if id, ok := as.Lhs[1].(*ast.Ident); ok && id.Name != "_" {
-			found[info.ObjectOf(id)] = "look-up"
-			if fn := calleeOf(info, call); fn != nil {
-				found[info.ObjectOf(id)] = fn.Name()
-			}
-		}
-		return true
-	})
-	isMark := func(st ast.Stmt) bool {
-		as, ok := st.(*ast.AssignStmt)
+	isMark := func(nd ast.Node) bool {
+		as, ok := nd.(*ast.AssignStmt)
 		if !ok {
 			return false
 		}
@@ -230,141 +197,146 @@ func checkMatchedMarked(c *Ctx, rule string) {
 		}
 		return false
 	}
+	// the loop that marks
+	var loop ast.Stmt
 	ast.Inspect(fi.Decl.Body, func(m ast.Node) bool {
-		br, ok := m.(*ast.BranchStmt)
-		if !ok || br.Tok != token.CONTINUE || br.Label != nil {
-			return true
+		st, ok := m.(ast.Stmt)
+		if !ok || loopBodyOf(st) == nil || loop != nil {
+			return loop == nil
 		}
-		loop, _ := enclosing(pm, br, func(nd ast.Node) bool { st, ok := nd.(ast.Stmt); return ok && loopBodyOf(st) != nil }).(ast.Stmt)
-		if loop == nil {
-			return true
-		}
-		// only the loop that marks (the one that searches for counterparts)
 		marks := false
-		ast.Inspect(loopBodyOf(loop), func(k ast.Node) bool {
-			if st, ok := k.(ast.Stmt); ok && isMark(st) {
+		ast.Inspect(loopBodyOf(st), func(k ast.Node) bool {
+			if isMark(k) {
 				marks = true
 			}
 			return !marks
 		})
-		if !marks {
+		if marks {
+			loop = st
+		}
+		return loop == nil
+	})
+	if loop == nil {
+		c.Unresolved(rule, "indexDiffT: the loop that marks matched indexes")
+		return
+	}
+	// look-ups inside that loop: x, …, ok := call(…) with results (*schema.Index, …, bool)
+	type lookup struct {
+		flag    types.Object
+		similar bool // found otherwise than by its unique name (anything but (*schema.Table).Index)
+		call    *ast.CallExpr
+	}
+	var lookups []lookup
+	ast.Inspect(loopBodyOf(loop), func(m ast.Node) bool {
+		as, ok := m.(*ast.AssignStmt)
+		if !ok || len(as.Rhs) != 1 || len(as.Lhs) < 2 {
 			return true
 		}
-		// only continues taken after a counterpart was found: under an if whose condition consults the found-flag of a look-up that returns (*schema.Index, bool)
-		after, via := false, ""
-		for child, p := ast.Node(br), pm[br]; p != nil && child != ast.Node(loop); child, p = p, pm[p] {
-			if ifs, ok := p.(*ast.IfStmt); ok && child == ast.Node(ifs.Body) {
-				ast.Inspect(ifs.Cond, func(k ast.Node) bool {
-					if id, ok := k.(*ast.Ident); ok && found[info.ObjectOf(id)] != "" && !after {
-						after, via = true, found[info.ObjectOf(id)]
+		call, ok := ast.Unparen(as.Rhs[0]).(*ast.CallExpr)
+		if !ok {
+			return true
+		}
+		tup, ok := info.TypeOf(call).(*types.Tuple)
+		if !ok || tup.Len() != len(as.Lhs) || !typeIs(derefType(tup.At(0).Type()), pSchema, "Index") {
+			return true
+		}
+		if b, ok := tup.At(tup.Len() - 1).Type().Underlying().(*types.Basic); !ok || b.Kind() != types.Bool {
+			return true
+		}
+		id, ok := as.Lhs[len(as.Lhs)-1].(*ast.Ident)
+		if !ok || id.Name == "_" {
+			return true
+		}
+		lookups = append(lookups, lookup{info.ObjectOf(id), !funcIs(calleeOf(info, call), pSchema, "Table", "Index"), call})
+		return true
+	})
+	if len(lookups) == 0 {
+		c.Unresolved(rule, "indexDiffT: look-ups of a counterpart index (results (*schema.Index, …, bool)) in the marking loop")
+		return
+	}
+	c.funcs[fi.Name] = true
+	f := newFlow(info, fi.Decl.Body)
+	_, next := loopBlocks(f, loop)
+	comparesPair := func(nd ast.Node) bool {
+		return nodeHasCall(info, nd, func(fn *types.Func, _ *ast.CallExpr) bool { return funcIs(fn, pSqlx, "Diff", "indexChange") }) != nil
+	}
+	// does a path lead from the edge on which `flag` is known true to the next iteration without passing `through`?
+	escapes := func(flag types.Object, through nodePred) bool {
+		isFlag := func(e ast.Expr, want bool) func(ast.Expr, bool) bool {
+			return func(e ast.Expr, val bool) bool {
+				id, ok := ast.Unparen(e).(*ast.Ident)
+				return ok && info.ObjectOf(id) == flag && val == want
+			}
+		}
+		bad := false
+		for _, b := range f.G.Blocks {
+			if !b.Live {
+				continue
+			}
+			for si := range b.Succs {
+				if len(b.Succs) != 2 || !edgeImplies(b, si, isFlag(nil, true)) {
+					continue
+				}
+				start := b.Succs[si]
+				if next(start) {
+					bad = true
+					continue
+				}
+				if f.reachBlockEdges([]point{{start, 0}}, through, next, func(eb *cfg.Block, esi int) bool {
+					return len(eb.Succs) == 2 && edgeImplies(eb, esi, isFlag(nil, false))
+				}) {
+					bad = true
+				}
+			}
+		}
+		return bad
+	}
+	// is the marker consulted in the marking loop (other than by the marking stores), or handed to a look-up?
+	markerRead := false
+	ast.Inspect(loopBodyOf(loop), func(m ast.Node) bool {
+		if as, ok := m.(*ast.AssignStmt); ok && isMark(as) {
+			for _, r := range as.Rhs {
+				ast.Inspect(r, func(k ast.Node) bool {
+					if id, ok := k.(*ast.Ident); ok && info.ObjectOf(id) == marker {
+						markerRead = true
 					}
 					return true
 				})
 			}
+			return false
 		}
-		if !after {
-			return true
+		if id, ok := m.(*ast.Ident); ok && info.ObjectOf(id) == marker {
+			markerRead = true
 		}
-		n++
-		c.funcs[fi.Name] = true
-		// a marking statement that stands, in a block enclosing the continue, before the statement that holds it
-		marked := false
-		for child, p := ast.Node(br), pm[br]; p != nil && child != ast.Node(loop); child, p = p, pm[p] {
-			var list []ast.Stmt
-			switch b := p.(type) {
-			case *ast.BlockStmt:
-				list = b.List
-			case *ast.CaseClause:
-				list = b.Body
-			}
-			for _, st := range list {
-				if st == child {
-					break
-				}
-				if isMark(st) {
-					marked = true
-				}
-			}
-		}
-		// (b) the matched pair is compared in full, (c) a counterpart found by similarity (not by its unique name) is claimed only once
-		compared, once, byName := false, false, true
-		for child, p := ast.Node(br), pm[br]; p != nil && child != ast.Node(loop); child, p = p, pm[p] {
-			var list []ast.Stmt
-			switch b := p.(type) {
-			case *ast.BlockStmt:
-				list = b.List
-			case *ast.CaseClause:
-				list = b.Body
-			case *ast.IfStmt:
-				if child == ast.Node(b.Body) {
-					if b.Init != nil {
-						list = append(list, b.Init)
-					}
-					ast.Inspect(b.Cond, func(k ast.Node) bool {
-						if un, ok := k.(*ast.UnaryExpr); ok && un.Op == token.NOT {
-							if ix, ok := ast.Unparen(un.X).(*ast.IndexExpr); ok {
-								if id, ok := ast.Unparen(ix.X).(*ast.Ident); ok && info.ObjectOf(id) == marker {
-									once = true
-								}
-							}
-						}
-						return true
-					})
-				}
-			}
-			for _, st := range list {
-				if st == child {
-					break
-				}
-				// only what the statement always evaluates (not the bodies of its branches)
-				var always []ast.Node
-				switch x := st.(type) {
-				case *ast.IfStmt:
-					always = []ast.Node{x.Init, x.Cond}
-				case *ast.ForStmt:
-					always = []ast.Node{x.Init}
-				case *ast.RangeStmt:
-					always = []ast.Node{x.X}
-				case *ast.SwitchStmt:
-					always = []ast.Node{x.Init, x.Tag}
-				case *ast.TypeSwitchStmt:
-					always = []ast.Node{x.Init, x.Assign}
-				case *ast.SelectStmt, *ast.BlockStmt, *ast.LabeledStmt:
-				default:
-					always = []ast.Node{st}
-				}
-				for _, an := range always {
-					if an == nil || reflect.ValueOf(an).IsNil() {
-						continue
-					}
-					ast.Inspect(an, func(k ast.Node) bool {
-						if _, ok := k.(*ast.FuncLit); ok {
-							return false
-						}
-						call, ok := k.(*ast.CallExpr)
-						if !ok {
-							return true
-						}
-						fn := calleeOf(info, call)
-						if funcIs(fn, pSqlx, "Diff", "indexChange") {
-							compared = true
-						}
-						if tup, ok := info.TypeOf(call).(*types.Tuple); ok && tup.Len() == 2 && typeIs(derefType(tup.At(0).Type()), pSchema, "Index") && !funcIs(fn, pSchema, "Table", "Index") {
-							// is this the look-up whose flag guards the continue?
-							byName = false
-						}
-						return true
-					})
-				}
-			}
-		}
-		c.Check(rule, "sqlx.(Diff).indexDiffT|the match found by "+via+" is compared with indexChange", br.Pos(), compared, "indexDiffT accepts a counterpart for an index and moves on without passing the pair to indexChange: an edit of the index's attributes or comment (USING HASH, COMMENT 'new', a predicate, INCLUDE columns) is never reported")
-		c.Check(rule, "sqlx.(Diff).indexDiffT|the match found by "+via+" is claimed only once", br.Pos(), byName || once, "indexDiffT accepts a counterpart found by similarity without testing that %s does not mark it already: two indexes of the current table are matched to the same desired index and the drop of the duplicate is never reported", marker.Name())
-		c.Check(rule, "sqlx.(Diff).indexDiffT|the match found by "+via+" is marked", br.Pos(), marked, "indexDiffT moves on to the next index after finding its counterpart without marking the counterpart in %s: the loop over the desired indexes then reports it as AddIndex, so a schema compared with an identical copy yields a change", marker.Name())
 		return true
 	})
-	if n < 2 {
-		c.Unresolved(rule, "indexDiffT: continue statements after a match (fewer than 2)")
+	markedName, markedSim, compared, anySim, anyName := true, true, true, false, false
+	var simPos token.Pos
+	for _, lk := range lookups {
+		esc := escapes(lk.flag, isMark)
+		if lk.similar {
+			anySim = true
+			simPos = lk.call.Pos()
+			if esc {
+				markedSim = false
+			}
+			if escapes(lk.flag, comparesPair) {
+				compared = false
+			}
+		} else {
+			anyName = true
+			if esc {
+				markedName = false
+			}
+		}
+	}
+	if anyName {
+		c.Check(rule, "sqlx.(Diff).indexDiffT|a counterpart found by its name is marked", loop.Pos(), markedName, "indexDiffT moves on to the next index after finding its counterpart by name without marking the counterpart in %s: the loop over the desired indexes then reports it as AddIndex, so a schema compared with an identical copy yields a change", marker.Name())
+	}
+	if anySim {
+		c.Check(rule, "sqlx.(Diff).indexDiffT|a counterpart found by similarity is marked", simPos, markedSim, "indexDiffT moves on to the next index after finding a similar counterpart without marking it in %s: the loop over the desired indexes then reports it as AddIndex, so a schema compared with an identical copy yields a change", marker.Name())
+		c.Check(rule, "sqlx.(Diff).indexDiffT|a counterpart found by similarity is compared with indexChange", simPos, compared, "indexDiffT accepts a counterpart found otherwise than by its name and moves on without passing the pair to indexChange on some path: an edit of the index's attributes or comment (USING HASH, COMMENT 'new', a predicate, INCLUDE columns) is never reported")
+		c.Check(rule, "sqlx.(Diff).indexDiffT|a counterpart found by similarity is claimed only once", simPos, markerRead, "indexDiffT accepts a counterpart found by similarity without consulting %s: two indexes of the current table are matched to the same desired index and the drop of the duplicate is never reported", marker.Name())
 	}
 }
 
@@ -1639,48 +1611,70 @@ func checkArrayKept(c *Ctx, rule string) {
 const ruleTextHashLiteralText = "what is hashed is what was executed: in Executor.Execute the bytes written into the running statement hash (the Write on the sha256 value inside the loop that fills the per-statement sums) are the conversion of the statement's Text and nothing else — no call normalises, trims or re-joins the text first. The sums are compared with Revision.PartialHashes to refuse a changed history: a normalised input makes every edit the normalisation hides (blanks inside a string literal of an applied INSERT) invisible, the run resumes and completes the revision"
 
 func checkHashLiteralText(c *Ctx, rule string) {
-	fi := c.Func(rule, pMigrate, "Executor", "Execute")
-	if fi == nil {
+	root := c.Func(rule, pMigrate, "Executor", "Execute")
+	if root == nil {
 		return
 	}
-	info := fi.Info()
 	n := 0
-	ast.Inspect(fi.Decl.Body, func(m ast.Node) bool {
-		loop, ok := m.(*ast.RangeStmt)
-		if !ok {
-			return true
-		}
-		for _, call := range callsIn(loop.Body, false) {
-			se, ok := call.Fun.(*ast.SelectorExpr)
-			if !ok || se.Sel.Name != "Write" || len(call.Args) != 1 {
-				continue
-			}
-			// receiver implements hash.Hash
-			rt := info.TypeOf(se.X)
-			if rt == nil || !strings.Contains(rt.String(), "hash.Hash") {
-				continue
-			}
-			n++
-			c.funcs[fi.Name] = true
-			arg := ast.Unparen(call.Args[0])
-			// accepted: []byte(X.Text) or X.Text of a *Stmt (or a local with that single definition)
-			isText := func(e ast.Expr) bool {
-				se, ok := ast.Unparen(e).(*ast.SelectorExpr)
-				return ok && se.Sel.Name == "Text" && typeIs(derefType(info.TypeOf(se.X)), pMigrate, "Stmt")
-			}
-			good := false
-			if conv, ok := arg.(*ast.CallExpr); ok && len(conv.Args) == 1 {
-				if tv, ok := info.Types[conv.Fun]; ok && tv.IsType() && isText(conv.Args[0]) {
-					good = true
+	// Execute and the package-local functions it calls (two levels): the loop may live in a helper
+	seen := map[*types.Func]bool{root.Obj: true}
+	type item struct {
+		f     *FuncInfo
+		depth int
+	}
+	work := []item{{root, 0}}
+	for len(work) > 0 {
+		it := work[0]
+		work = work[1:]
+		fi := it.f
+		info := fi.Info()
+		if it.depth < 2 {
+			for _, call := range callsIn(fi.Decl.Body, true) {
+				if fn := calleeOf(info, call); fn != nil && fn.Pkg() != nil && fn.Pkg().Path() == pMigrate && !seen[fn] {
+					seen[fn] = true
+					if hf := c.FuncInfoOf(fn); hf != nil && hf.Decl.Body != nil {
+						work = append(work, item{hf, it.depth + 1})
+					}
 				}
 			}
-			if isText(arg) {
-				good = true
-			}
-			c.Check(rule, fmt.Sprintf("migrate.(Executor).Execute|hash input %d is the statement text", n), call.Pos(), good, "Execute feeds %s into the statement hash instead of the bytes of the statement's text: an edit of an applied statement that the transformation hides is not seen as a changed history, so the file is resumed and its revision completed", types.ExprString(arg))
 		}
-		return true
-	})
+		ast.Inspect(fi.Decl.Body, func(m ast.Node) bool {
+			loop, ok := m.(ast.Stmt)
+			if !ok || loopBodyOf(loop) == nil {
+				return true
+			}
+			for _, call := range callsIn(loopBodyOf(loop), false) {
+				se, ok := call.Fun.(*ast.SelectorExpr)
+				if !ok || !(se.Sel.Name == "Write" || se.Sel.Name == "WriteString") || len(call.Args) != 1 {
+					continue
+				}
+				// receiver implements hash.Hash
+				rt := info.TypeOf(se.X)
+				if rt == nil || !strings.Contains(rt.String(), "hash.Hash") {
+					continue
+				}
+				n++
+				c.funcs[fi.Name] = true
+				arg := ast.Unparen(call.Args[0])
+				// accepted: []byte(X.Text) or X.Text of a *Stmt
+				isText := func(e ast.Expr) bool {
+					se, ok := ast.Unparen(e).(*ast.SelectorExpr)
+					return ok && se.Sel.Name == "Text" && typeIs(derefType(info.TypeOf(se.X)), pMigrate, "Stmt")
+				}
+				good := false
+				if conv, ok := arg.(*ast.CallExpr); ok && len(conv.Args) == 1 {
+					if tv, ok := info.Types[conv.Fun]; ok && tv.IsType() && isText(conv.Args[0]) {
+						good = true
+					}
+				}
+				if isText(arg) {
+					good = true
+				}
+				c.Check(rule, fmt.Sprintf("migrate.(Executor).Execute|hash input %d is the statement text", n), call.Pos(), good, "%s feeds %s into the statement hash instead of the bytes of the statement's text: an edit of an applied statement that the transformation hides is not seen as a changed history, so the file is resumed and its revision completed", fi.Name, types.ExprString(arg))
+			}
+			return true
+		})
+	}
 	if n < 1 {
 		c.Unresolved(rule, "the Write into the statement hash in Executor.Execute")
 	}
@@ -2204,19 +2198,11 @@ func checkDetachedCopy(c *Ctx, rule string) {
 			}
 			n++
 			c.funcs[fi.Name] = true
-			cleared, rebuilt := false, false
+			// the ForeignKeys of a table are reassigned in the branch: directly, or by a copy helper that stores its parameter there
+			cleared, rebuilt := len(fkAssignments(c, info, ifs.Body.List)) > 0, false
 			ast.Inspect(ifs.Body, func(k ast.Node) bool {
-				switch x := k.(type) {
-				case *ast.AssignStmt:
-					for _, l := range x.Lhs {
-						if se, ok := ast.Unparen(l).(*ast.SelectorExpr); ok && se.Sel.Name == "ForeignKeys" && typeIs(derefType(info.TypeOf(se.X)), pSchema, "Table") {
-							cleared = true
-						}
-					}
-				case *ast.CompositeLit:
-					if typeIs(derefType(info.TypeOf(x)), pSchema, kind) {
-						rebuilt = true
-					}
+				if x, ok := k.(*ast.CompositeLit); ok && typeIs(derefType(info.TypeOf(x)), pSchema, kind) {
+					rebuilt = true
 				}
 				return true
 			})
@@ -2239,76 +2225,104 @@ func checkNolintLocal(c *Ctx, rule string) {
 	}
 	info := fi.Info()
 	pm := parentMap(fi.Decl)
-	n := 0
-	ast.Inspect(fi.Decl.Body, func(m ast.Node) bool {
-		as, ok := m.(*ast.AssignStmt)
-		if !ok || len(as.Lhs) != 1 || len(as.Rhs) != 1 {
-			return true
-		}
-		ix, ok := ast.Unparen(as.Lhs[0]).(*ast.IndexExpr)
+	storesRules := func(inf *types.Info, e ast.Expr) bool {
+		ix, ok := ast.Unparen(e).(*ast.IndexExpr)
 		if !ok {
-			return true
+			return false
 		}
 		se, ok := ast.Unparen(ix.X).(*ast.SelectorExpr)
-		if !ok || se.Sel.Name != "pos2rules" {
-			return true
+		return ok && se.Sel.Name == "pos2rules"
+	}
+	// sinks: a store into pos2rules[key], or a call of a package-local helper that makes such a store
+	// (its arguments are then the key and the value)
+	type sink struct {
+		node   ast.Node
+		keys   []ast.Expr
+		values []ast.Expr
+	}
+	var sinks []sink
+	ast.Inspect(fi.Decl.Body, func(m ast.Node) bool {
+		switch x := m.(type) {
+		case *ast.AssignStmt:
+			if len(x.Lhs) == 1 && len(x.Rhs) == 1 && storesRules(info, x.Lhs[0]) {
+				sinks = append(sinks, sink{x, []ast.Expr{ast.Unparen(x.Lhs[0]).(*ast.IndexExpr).Index}, []ast.Expr{x.Rhs[0]}})
+			}
+		case *ast.CallExpr:
+			fn := calleeOf(info, x)
+			if fn == nil || fn.Pkg() == nil || fn.Pkg().Path() != pLint {
+				return true
+			}
+			hf := c.FuncInfoOf(fn)
+			if hf == nil || hf.Decl.Body == nil {
+				return true
+			}
+			helper := false
+			ast.Inspect(hf.Decl.Body, func(k ast.Node) bool {
+				if as, ok := k.(*ast.AssignStmt); ok && len(as.Lhs) == 1 && storesRules(hf.Info(), as.Lhs[0]) {
+					helper = true
+				}
+				return true
+			})
+			if helper {
+				sinks = append(sinks, sink{x, x.Args, x.Args})
+			}
 		}
-		loop, _ := enclosing(pm, as, func(nd ast.Node) bool { st, ok := nd.(ast.Stmt); return ok && loopBodyOf(st) != nil }).(ast.Stmt)
-		if loop == nil {
-			return true
-		}
-		// the loop over the changes (the one whose element provides the position): the outermost loop whose variable occurs in the key
-		var chg ast.Stmt
-		for p := ast.Node(loop); p != nil; p = pm[p] {
+		return true
+	})
+	n := 0
+	for _, sk := range sinks {
+		// the loop over the changes: the outermost enclosing range loop whose element occurs in the key
+		var chg *ast.RangeStmt
+		for p := pm[sk.node]; p != nil; p = pm[p] {
 			rs, ok := p.(*ast.RangeStmt)
 			if !ok {
 				continue
 			}
-			if v, ok := rs.Value.(*ast.Ident); ok {
-				uses := false
-				ast.Inspect(ix.Index, func(k ast.Node) bool {
+			v, ok := rs.Value.(*ast.Ident)
+			if !ok {
+				continue
+			}
+			for _, key := range sk.keys {
+				ast.Inspect(key, func(k ast.Node) bool {
 					if id, ok := k.(*ast.Ident); ok && info.ObjectOf(id) == info.ObjectOf(v) {
-						uses = true
+						chg = rs
 					}
 					return true
 				})
-				if uses {
-					chg = rs
-				}
 			}
 		}
 		if chg == nil {
-			return true
+			continue
 		}
 		n++
 		c.funcs[fi.Name] = true
-		body := loopBodyOf(chg)
 		carried := ""
-		ast.Inspect(as.Rhs[0], func(k ast.Node) bool {
-			id, ok := k.(*ast.Ident)
-			if !ok {
-				return true
-			}
-			v, ok := info.Uses[id].(*types.Var)
-			if !ok || v.IsField() || v.Pos() >= chg.Pos() && v.Pos() < chg.End() || v.Pkg() == nil || v.Parent() == v.Pkg().Scope() {
-				return true
-			}
-			// declared outside the changes loop: is it assigned inside it?
-			ast.Inspect(body, func(q ast.Node) bool {
-				if st, ok := q.(*ast.AssignStmt); ok {
-					for _, l := range st.Lhs {
-						if lid, ok := ast.Unparen(l).(*ast.Ident); ok && info.ObjectOf(lid) == types.Object(v) {
-							carried = v.Name()
+		for _, val := range sk.values {
+			ast.Inspect(val, func(k ast.Node) bool {
+				id, ok := k.(*ast.Ident)
+				if !ok {
+					return true
+				}
+				v, ok := info.Uses[id].(*types.Var)
+				if !ok || v.IsField() || v.Pos() >= chg.Pos() && v.Pos() < chg.End() || v.Pkg() == nil || v.Parent() == v.Pkg().Scope() {
+					return true
+				}
+				// declared outside the changes loop: is it assigned inside it?
+				ast.Inspect(chg.Body, func(q ast.Node) bool {
+					if st, ok := q.(*ast.AssignStmt); ok {
+						for _, l := range st.Lhs {
+							if lid, ok := ast.Unparen(l).(*ast.Ident); ok && info.ObjectOf(lid) == types.Object(v) {
+								carried = v.Name()
+							}
 						}
 					}
-				}
+					return true
+				})
 				return true
 			})
-			return true
-		})
-		c.Check(rule, fmt.Sprintf("migratelint.nolintRules|store %d keeps rules with the statement they were written on", n), as.Pos(), carried == "", "nolintRules stores under a statement's position a value built from %s, a variable declared outside the loop over the changes and appended to inside it: the suppression written on one statement is applied to every later statement, so a destructive statement further down the file is not reported", carried)
-		return true
-	})
+		}
+		c.Check(rule, fmt.Sprintf("migratelint.nolintRules|store %d keeps rules with the statement they were written on", n), sk.node.Pos(), carried == "", "nolintRules stores under a statement's position a value built from %s, a variable declared outside the loop over the changes and appended to inside it: the suppression written on one statement is applied to every later statement, so a destructive statement further down the file is not reported", carried)
+	}
 	if n < 2 {
 		c.Unresolved(rule, "stores into pos2rules inside the loops of nolintRules (fewer than 2)")
 	}
@@ -2325,17 +2339,30 @@ func checkDefaultUnconditional(c *Ctx, rule string) {
 		}
 		info := fi.Info()
 		f := newFlow(info, fi.Decl.Body)
+		// a CFG node that stores the default: X.F = sqlx.P(v), or a literal with a field F: sqlx.P(v)
 		isDefault := func(nd ast.Node) bool {
-			as, ok := nd.(*ast.AssignStmt)
-			if !ok || len(as.Rhs) != 1 {
-				return false
-			}
-			call, ok := ast.Unparen(as.Rhs[0]).(*ast.CallExpr)
-			if !ok || !funcIs(calleeOf(info, call), pSqlx, "", "P") {
-				return false
-			}
-			_, isSel := ast.Unparen(as.Lhs[0]).(*ast.SelectorExpr)
-			return isSel
+			hit := false
+			ast.Inspect(nd, func(k ast.Node) bool {
+				if _, ok := k.(*ast.FuncLit); ok {
+					return false
+				}
+				switch x := k.(type) {
+				case *ast.AssignStmt:
+					if len(x.Rhs) == 1 && len(x.Lhs) == 1 {
+						if call, ok := ast.Unparen(x.Rhs[0]).(*ast.CallExpr); ok && funcIs(calleeOf(info, call), pSqlx, "", "P") {
+							if _, isSel := ast.Unparen(x.Lhs[0]).(*ast.SelectorExpr); isSel {
+								hit = true
+							}
+						}
+					}
+				case *ast.KeyValueExpr:
+					if call, ok := ast.Unparen(x.Value).(*ast.CallExpr); ok && funcIs(calleeOf(info, call), pSqlx, "", "P") {
+						hit = true
+					}
+				}
+				return !hit
+			})
+			return hit
 		}
 		if len(f.find(isDefault)) == 0 {
 			return
@@ -2523,7 +2550,19 @@ func checkTotalOrderOverMapKeys(c *Ctx, rule string) {
 		}
 		for _, call := range callsIn(fi.Decl.Body, false) {
 			fn := calleeOf(info, call)
-			if fn == nil || fn.Pkg() == nil || len(call.Args) != 2 {
+			if fn == nil || fn.Pkg() == nil {
+				continue
+			}
+			// sorts that are total by construction over plain values
+			if len(call.Args) == 1 && (fn.Pkg().Path() == "sort" && (fn.Name() == "Strings" || fn.Name() == "Ints" || fn.Name() == "Float64s") || fn.Pkg().Path() == "slices" && fn.Name() == "Sort") {
+				if sid, ok := ast.Unparen(call.Args[0]).(*ast.Ident); ok && fromMap[info.ObjectOf(sid)] {
+					n++
+					c.funcs[fi.Name] = true
+					c.Check(rule, fi.Name+"|the sort over "+sid.Name+" (filled from a map) compares the elements themselves", call.Pos(), true, "")
+				}
+				continue
+			}
+			if len(call.Args) != 2 {
 				continue
 			}
 			isSort := fn.Pkg().Path() == "sort" && (fn.Name() == "Slice" || fn.Name() == "SliceStable") || fn.Pkg().Path() == "slices" && (fn.Name() == "SortFunc" || fn.Name() == "SortStableFunc")
@@ -2629,8 +2668,57 @@ func checkPreferredSearch(c *Ctx, rule string) {
 				case *ast.RangeStmt:
 					loop, loopBody = x, x.Body
 				}
-				if loop == nil || li+2 >= len(list) {
+				if loop == nil || li+1 >= len(list) {
 					continue
+				}
+				condRet := func(cond ast.Expr, body []ast.Stmt) types.Object {
+					if cond == nil || len(body) != 1 {
+						return nil
+					}
+					be, ok := ast.Unparen(cond).(*ast.BinaryExpr)
+					if !ok || be.Op != token.NEQ {
+						return nil
+					}
+					id, ok := ast.Unparen(be.X).(*ast.Ident)
+					if !ok {
+						return nil
+					}
+					if nid, ok := ast.Unparen(be.Y).(*ast.Ident); !ok || nid.Name != "nil" {
+						return nil
+					}
+					ret, ok := body[0].(*ast.ReturnStmt)
+					if !ok || len(ret.Results) == 0 {
+						return nil
+					}
+					if rid, ok := ast.Unparen(ret.Results[0]).(*ast.Ident); !ok || info.ObjectOf(rid) != info.ObjectOf(id) {
+						return nil
+					}
+					return info.ObjectOf(id)
+				}
+				// the ordered `X != nil → return X` decisions that follow the loop: an if sequence or the cases of a tagless switch
+				var order []types.Object
+				for _, s := range list[li+1:] {
+					switch x := s.(type) {
+					case *ast.IfStmt:
+						if x.Else == nil {
+							if o := condRet(x.Cond, x.Body.List); o != nil {
+								order = append(order, o)
+								continue
+							}
+						}
+					case *ast.SwitchStmt:
+						if x.Tag == nil {
+							for _, cl := range x.Body.List {
+								cc := cl.(*ast.CaseClause)
+								if len(cc.List) == 1 {
+									if o := condRet(cc.List[0], cc.Body); o != nil {
+										order = append(order, o)
+									}
+								}
+							}
+						}
+					}
+					break
 				}
 				retOf := func(s ast.Stmt) types.Object {
 					ifs, ok := s.(*ast.IfStmt)
@@ -2657,10 +2745,11 @@ func checkPreferredSearch(c *Ctx, rule string) {
 					}
 					return info.ObjectOf(id)
 				}
-				pref, fall := retOf(list[li+1]), retOf(list[li+2])
-				if pref == nil || fall == nil || pref == fall {
+				_ = retOf
+				if len(order) < 2 || order[0] == order[1] {
 					continue
 				}
+				pref, fall := order[0], order[1]
 				n++
 				c.funcs[fi.Name] = true
 				// atoms of the loop condition
